@@ -1,8 +1,14 @@
 """C12 — sink line = pattern with every attribute substituted for the statement, plus newline.
 Proof: Props/Properties_C12.v (gen_print incl. literals with '%', C12_line for every oracle
 apply_spec / value / spec, slot table, rejection at creation, multi-line on/off, MacroMetadata
-fields, runtime-metadata split; refutations for the empty pattern, literal braces, duplicate
-attribute, >= 64 KiB source location).
+fields, runtime-metadata split; literal text with braces and source locations of any length for
+the repaired variant of the code; refutations for the empty pattern, duplicate attribute, and -
+about the pinned variant - literal braces and >= 64 KiB source locations).
+Variants: the model (Format/PatModel.v, record pvar) carries the width of the MacroMetadata
+position members and whether _generate_fmt_format_string doubles the braces of the literal text;
+the variant of the checked tree is read from T-src facts (tools/srcfacts.py c12_facts, TieC12.v:
+mm_pos_bits = 64, pf_escapes_literal_braces = true) and sent as the header "9 <bits> <esc>" of every
+pat line (and in the leading number of a patd line).
 Tie: T-corr. The extracted M-PAT (constructor rewriting + format + multi-line + MacroMetadata) is
 run against the real quill::PatternFormatter (direct), against the lines a recording sink receives
 from the real backend (ManualBackendWorker; compile-time call sites and LOG_RUNTIME_METADATA), and
@@ -22,7 +28,7 @@ from vlib import Check, standard_proof_phase, correspond, ddmin, sh, VERIF, COQ
 
 PID = 'C12'
 MANIFEST = dict(
-    text='Machine-checked (Coq) for every well-formed pattern (any subset/order of the 16 attributes, each once, any spec without ) { }, literal text without braces and "%(", including "%"), every attribute value and every per-field renderer: the constructor rewrites the printed pattern to exactly the expected fmt string / slot table (the restart-from-0 re-scan skips the rewritten prefix), format() yields the pattern with each attribute replaced by its rendered value plus "\\n", used attributes get distinct slots, unknown names and unterminated "%(" are rejected at creation, multi-line messages give one full line per message line (option on) or one statement minus at most one trailing newline (option off / named args), MacroMetadata file/line/path fields and the runtime-metadata split are the stated substrings. Refutations (replayed on the code): empty pattern gives no newline, literal braces are fmt syntax, duplicate attribute throws at format time, source locations >= 65536 bytes are truncated (uint16). Sink selection (Properties_C12d): for a logger with any ordered list of sinks (each with or without override pattern options, any filter outcome per message line), every sink that passes its filters is handed exactly the line of its own effective pattern (override if present, else the logger\'s) for each message line, independent of the other sinks and of their order (permutation theorem); filtered-out and foreign sinks get nothing; the formatter looked up in other loggers is one for the logger\'s own options; the variant with log_to_write declared outside the per-sink loop is refuted, and T-src (clang AST skeletons of _write_log_statement, _process_multi_line_message, _dispatch_transit_event_to_sinks) proves the code is the good variant. Also proved and replayed: the multi-line option of a sink\'s override options is never read (open finding), an override pattern rejected at creation starves the sinks behind it (outside the quantifier). Tied to the code by differential runs of the extracted model against PatternFormatter, the real backend sink path (one sink; and several sinks with override patterns and filters in random order) and fmtquill::vformat_to, plus a direct property monitor.',
+    text='Machine-checked (Coq) for every well-formed pattern (any subset/order of the 16 attributes, each once, any spec without ) { }, literal text without "%(" - including "%" and, on the code that doubles the braces of the literal text before handing it to fmt (T-src fact pf_escapes_literal_braces, TieC12.v), any "{" "}"), every attribute value and every per-field renderer: the constructor rewrites the printed pattern to exactly the expected fmt string / slot table (the restart-from-0 re-scan skips the rewritten prefix), format() yields the pattern with each attribute replaced by its rendered value plus "\\n", used attributes get distinct slots, unknown names and unterminated "%(" are rejected at creation, multi-line messages give one full line per message line (option on) or one statement minus at most one trailing newline (option off / named args), MacroMetadata file/line/path fields are the stated substrings for a source location of any length (size_t position members: T-src fact mm_pos_bits = 64; for narrower members the locations shorter than 2^width) and the runtime-metadata split is the stated one. Refutations (replayed on the code): empty pattern gives no newline, duplicate attribute throws at format time; about the pinned variant of the code (findings C12-brace-literal and C12-srcloc-64k, fixed): literal braces are fmt syntax, source locations >= 65536 bytes are truncated (uint16). Sink selection (Properties_C12d): for a logger with any ordered list of sinks (each with or without override pattern options, any filter outcome per message line), every sink that passes its filters is handed exactly the line of its own effective pattern (override if present, else the logger\'s) for each message line, independent of the other sinks and of their order (permutation theorem); filtered-out and foreign sinks get nothing; the formatter looked up in other loggers is one for the logger\'s own options; the variant with log_to_write declared outside the per-sink loop is refuted, and T-src (clang AST skeletons of _write_log_statement, _process_multi_line_message, _dispatch_transit_event_to_sinks) proves the code is the good variant. Also proved and replayed: the multi-line option of a sink\'s override options is never read (open finding), an override pattern rejected at creation starves the sinks behind it (outside the quantifier). Tied to the code by differential runs of the extracted model against PatternFormatter, the real backend sink path (one sink; and several sinks with override patterns and filters in random order) and fmtquill::vformat_to, plus a direct property monitor.',
     design='5 C12', technique='Coq proof over an executable model (mini-fmt + M-PAT + M-PATD sink dispatch, fmt field rendering as an oracle) + T-src skeleton tie for the dispatch methods + extracted-model/implementation differential correspondence')
 TRUSTED = [
     'Coq 8.16.1 kernel (coqc, vm_compute for the refutation witnesses; no native_compute)',
@@ -33,6 +39,7 @@ TRUSTED = [
     'extraction: ExtrOcamlBasic only, OCaml 4.13.1 ocamlopt, extract/driver.ml',
     'correspondence harness harness/pat.cpp (recording sink, ManualBackendWorker, #line-pinned call sites, private->public for the constructor-state mode only), g++ -fsanitize=address,undefined',
     'modelled rather than verified: PatternFormatter / MacroMetadata / the multi-line dispatch are re-stated in Gallina (Format/PatModel.v); std::string index arithmetic is modelled by structural list functions',
+    'model variant (pvar) of the run = T-src facts mm_pos_bits / pf_escapes_literal_braces (tools/srcfacts.py c12_facts: clang 14 JSON AST field / return types and skeletons of MacroMetadata::_calc_* and the accessors, skeleton of _generate_fmt_format_string; TieC12.v by vm_compute); a position member of 64 bits or more (size_t) is modelled without wrap-around: a string in memory is shorter than 2^64 bytes',
     'sink dispatch (Format/PatDispatch.v): Sink::apply_all_filters is a function of (level, message line, logger statement) per sink (user filters and Sink::write_log are assumed not to throw and not to touch other sinks); tools/srcfacts.py c12d_facts (clang 14 JSON AST skeletons of _write_log_statement, _process_multi_line_message, _dispatch_transit_event_to_sinks) for the T-src tie TieC12d.v',
 ]
 
@@ -116,7 +123,10 @@ def decode(case):
     if not t or t[0] != 'pat': return None
     try:
         r = Rd([int(x) for x in t[1:]])
-        m = r.num(); d = {'mode': m}
+        m = r.num(); var = None
+        if m == 9:      # "9 <pv_bits> <pv_esc>": the model variant the case is run on
+            var = (r.num(), r.num()); m = r.num()
+        d = {'mode': m, 'variant': var}
         if m == 0:
             d['pattern'] = r.bs(); d['st'] = dec_stmt(r); d['table'] = dec_table(r)
         elif m == 1:
@@ -153,9 +163,10 @@ def prop_values(d, msg=None):
             'tags': tags or b'', 'named_args': b', '.join(k + b': ' + v for k, v in na) if na else b''}
 
 
-def classify(pattern, strict=False):
-    """('ok', fields) | ('unknown', name) | ('unterminated',) | ('excluded', why).  strict: literal braces are
-    taken as the 'arbitrary literal text' of the property (used for the replays of that known finding)"""
+def classify(pattern, strict=True):
+    """('ok', fields) | ('unknown', name) | ('unterminated',) | ('excluded', why).  Literal braces are 'arbitrary
+    literal text' of the property (finding C12-brace-literal, fixed: the formatter doubles them for fmt);
+    strict=False is the reading of the pinned code (braces excluded), kept for the coverage statistics only"""
     fields = []; pos = 0; lits = []
     for m in FIELD_RE.finditer(pattern):
         lits.append(pattern[pos:m.start()]); pos = m.end()
@@ -226,7 +237,7 @@ def prop_in_scope(d):
     return None
 
 
-def monitor(case, impl_line, strict=False):
+def monitor(case, impl_line, strict=True):
     if case.startswith('patd '):
         from props import patd_common as D
         return D.monitor(case, impl_line)
@@ -305,11 +316,13 @@ class Oracle:
         return self.t
 
 
-def mm_cxx(srcloc):
-    """what the uint16_t arithmetic of MacroMetadata yields (used only to REQUEST oracle entries for source
-    locations of 64 KiB and more, so that the model's faithful answer finds its table entries; never to judge)"""
-    colon = srcloc.rfind(b':') % 65536
-    fnp = (srcloc.rfind(b'/') + 1) % 65536
+def mm_cxx(srcloc, bits=16):
+    """what the arithmetic of MacroMetadata yields with position members of <bits> bits (used only to REQUEST
+    oracle entries for source locations of 2^bits bytes and more, so that the faithful answer of the model variant
+    of the run finds its table entries; never to judge)"""
+    mod = (1 << bits) if bits < 64 else (1 << 64)
+    colon = srcloc.rfind(b':') % mod
+    fnp = (srcloc.rfind(b'/') + 1) % mod
     return {'full_path': srcloc[:colon], 'line_number': srcloc[colon + 1:], 'short_source_location': srcloc[fnp:],
             'file_name': srcloc[fnp:fnp + max(colon - fnp, 0)]}
 
@@ -333,10 +346,12 @@ def needed_pairs(d):
         for m in msgs:
             pv = prop_values(d, m)
             out += [(fs, pv[n]) for n, fs in c[1]]
-            if len(pv['source_location']) >= 65536:
-                cx = mm_cxx(pv['source_location'])
+            if VAR['bits'] < 64 and len(pv['source_location']) >= (1 << VAR['bits']):
+                cx = mm_cxx(pv['source_location'], VAR['bits'])
                 out += [(fs, cx[n]) for n, fs in c[1] if n in cx]
-        return out
+        # a model variant that hands literal braces to fmt reads "{...}" in the literal text as a field
+        if VAR['esc'] or classify(d['pattern'], strict=False)[0] == 'ok': return out
+        return out + [(fs, v) for fs in fss for v in vals if len(v) <= 1024]
     return [(fs, v) for fs in fss for v in vals]
 
 
@@ -368,9 +383,12 @@ LIT_CH = b'abXY 01._-[]|/\\#=%():%():\t'
 VAL_CH = b'abcXYZ019 _-./{}%{}%()<>:,"\''
 
 
-def g_lit(rng, maxlen=6):
+BRACE_CH = b'{}{}{}"a: %'
+
+
+def g_lit(rng, maxlen=6, braces=False):
     while True:
-        s = bytes(rng.choice(LIT_CH) for _ in range(rng.randint(1, maxlen)))
+        s = bytes(rng.choice(BRACE_CH if (braces and rng.random() < 0.6) else LIT_CH) for _ in range(rng.randint(1, maxlen)))
         if b'%(' not in s: return s
 
 
@@ -426,12 +444,13 @@ def g_stmt(rng, e2e=False):
     return st
 
 
-def g_items(rng, names, nolit=0.15):
+def g_items(rng, names, nolit=0.15, braces=False):
+    """braces: the literal text may hold '{' and '}' (arbitrary literal text of the property)"""
     items = []
-    if rng.random() > nolit: items.append(('L', g_lit(rng)))
+    if rng.random() > nolit: items.append(('L', g_lit(rng, braces=braces)))
     for n in names:
         items.append(('A', n, g_spec(rng)))
-        if rng.random() > nolit: items.append(('L', g_lit(rng)))
+        if rng.random() > nolit: items.append(('L', g_lit(rng, braces=braces)))
     return items
 
 
@@ -446,9 +465,57 @@ def gen_direct(rng, n):
     """mode 0: valid patterns, k in {0,1,15,16} emphasised, every attribute order"""
     out = []
     for i in range(n):
-        items = g_items(rng, g_names(rng, ATTRS))
-        if not items: items = [('L', g_lit(rng))] if rng.random() < 0.7 else []
-        out.append({'mode': 0, 'pattern': pprint(items), 'st': g_stmt(rng), 'kind': 'valid'})
+        br = rng.random() < 0.15
+        items = g_items(rng, g_names(rng, ATTRS), braces=br)
+        if not items: items = [('L', g_lit(rng, braces=br))] if rng.random() < 0.7 else []
+        p = pprint(items)
+        out.append({'mode': 0, 'pattern': p, 'st': g_stmt(rng), 'kind': 'valid-brace-literal' if (b'{' in p or b'}' in p) else 'valid'})
+    return out
+
+
+JSON_PATTERNS = [b'{"level": "%(log_level)", "msg": "%(message)"}', b'{{%(message)', b'{%(message)}', b'}%(logger){%(message:>8)}{',
+                 b'{"t": "%(time)", "src": "%(short_source_location:<20)", "m": "%(message)"}', b'{}%(message){0}{:>5}{x}', b'{']
+
+
+def gen_long_srcloc(rng, n):
+    """source locations around and beyond 64 KiB (finding C12-srcloc-64k, fixed): long file name, deep directory
+    (the last '/' beyond 64 KiB), no directory; direct (mode 0) and through LOG_RUNTIME_METADATA (mode 1, site 0).
+    The patterns use precisions so that the lines stay short."""
+    out = []
+    # exactly one MacroMetadata attribute per pattern: the case line carries every (spec, value) pair of the oracle
+    # table (for a narrow-position variant of the model also the wrapped values), and the runner's line parser is
+    # not made for lines of more than ~250000 integers
+    pats = [b'%(file_name:.9)|%(message)', b'%(full_path:.7)|%(message)', b'%(short_source_location:.12) {%(message)}',
+            b'%(line_number:.4)|%(message)', b'<%(source_location:.6)> %(message)', b'%(line_number)']
+    for i in range(n):
+        total = rng.choice([65533, 65534, 65535, 65536, 65537, 65600, 66000])
+        shape = i % 3
+        if shape == 0: path = b'd/' + b'a' * total
+        elif shape == 1: path = (b'p' * 7 + b'/') * (total // 8) + b'f.cpp'
+        else: path = b'x' * total
+        line = str(rng.choice([1, 5, 42, 65535])).encode()
+        p = pats[(i // 3) % len(pats)]          # every pattern with every shape
+        if (i // 3 + i) % 2 == 0:
+            d = e2e_case(rng, rng.choice([0, 1]), 0, rng.choice([b'm', b'a\nb']), items=[('L', b'')])
+            d.update(pattern=p, rt_file=path, rt_line=line, kind='long-srcloc')
+        else:
+            st = g_stmt(rng); st['srcloc'] = path + b':' + line
+            d = {'mode': 0, 'pattern': p, 'st': st, 'kind': 'long-srcloc'}
+        out.append(d)
+    return out
+
+
+def gen_json(rng, n):
+    """JSON-like and other brace-literal patterns (finding C12-brace-literal, fixed), direct and end to end"""
+    out = []
+    for i in range(n):
+        p = JSON_PATTERNS[i % len(JSON_PATTERNS)]
+        if i % 2 == 0 and b'%(time)' not in p:
+            d = e2e_case(rng, rng.choice([0, 1]), rng.choice([0, 1, 2]), bytes(rng.choice(b'ab {}%\n') for _ in range(rng.randint(0, 9))), items=[('L', b'')])
+            d.update(pattern=p, kind='json')
+        else:
+            d = {'mode': 0, 'pattern': p, 'st': g_stmt(rng), 'kind': 'json'}
+        out.append(d)
     return out
 
 
@@ -472,7 +539,7 @@ def gen_malformed(rng, n):
             p = pprint(items2); kind = 'duplicate'
         elif r < 0.9:
             br = rng.choice([b'{', b'}', b'{{', b'}}', b'{}', b'{0}', b'{x}', b'{:>3}', b'{{}}', b'{"k": "', b'"}'])
-            p = pprint(items[:pos]) + br + pprint(items[pos:]); kind = 'brace'
+            p = pprint(items[:pos]) + br + pprint(items[pos:]); kind = 'brace-literal'
         else:
             a = rng.choice(ATTRS)
             p = pprint(items[:pos]) + b'%(' + a.encode() + rng.choice([b':d', b':>x', b':{}', b':10.', b':}', b':q', b':=5']) + b')' + pprint(items[pos:])
@@ -493,7 +560,7 @@ E2E_NO = [0]
 
 
 def e2e_case(rng, add_meta, site, msg, items=None):
-    if items is None: items = g_items(rng, g_names(rng, E2E_ATTRS, rng.choice([1, 2, 3, 12])))
+    if items is None: items = g_items(rng, g_names(rng, E2E_ATTRS, rng.choice([1, 2, 3, 12])), braces=rng.random() < 0.12)
     if not items: items = [('A', 'message', None)]
     st = g_stmt(rng, e2e=True); st['msg'] = msg
     E2E_NO[0] += 1; st['logger'] = b'lg%d' % E2E_NO[0]     # logger names are unique within a run
@@ -608,8 +675,11 @@ def build(ck):
 def norm_obs(case, o):
     """a format() / vformat_to that throws is the observation "throws": the kind of fmt error (which message fmt
     picks for an invalid format string) is not part of the comparison; constructor error kinds are"""
-    if case.startswith('pat 0 ') and o.startswith('0 1 '): return '0 1'
-    if case.startswith('pat 2 ') and o.startswith('1 '): return '1'
+    if not case.startswith('pat '): return o
+    t = case.split(' ', 5)
+    mode = t[4] if (len(t) > 4 and t[1] == '9') else t[1]       # behind the variant header "9 <bits> <esc>"
+    if mode == '0' and o.startswith('0 1 '): return '0 1'
+    if mode == '2' and o.startswith('1 '): return '1'
     return o
 
 
@@ -634,6 +704,11 @@ def run(tier):
     ck.tie.append({'T-src facts': {'be_log_to_write_reinit_per_sink': reinit},
                    'model variant for the dispatch correspondence': 'hoist=%d' % hoist,
                    'lemmas': 'TieC12d.src_log_to_write_reinit_per_sink, TieC12d.c12d_skeletons_ok (vm_compute)'})
+    # ... width of the MacroMetadata position members, literal braces doubled or not
+    var = set_variant(facts)
+    ck.tie.append({'T-src facts': {'mm_pos_bits': facts.get('mm_pos_bits'), 'pf_escapes_literal_braces': facts.get('pf_escapes_literal_braces')},
+                   'model variant for the formatter correspondence': 'pv_bits=%d pv_esc=%d' % (var['bits'], var['esc']),
+                   'lemmas': 'TieC12.src_mm_pos_bits (= 64), TieC12.src_pf_escapes_literal_braces (= true), TieC12.c12_skeletons_ok (vm_compute)'})
     q = tier == 'quick'
     if not q:
         # independent re-check of the compiled closure of the property files by coqchk
@@ -647,7 +722,7 @@ def run(tier):
     orc = Oracle(ck, iexe); rng = ck.rng
     objs = (gen_direct(rng, 3000 if q else 40000) + gen_malformed(rng, 800 if q else 10000)
             + gen_e2e(rng, 300 if q else 4000, 6 if q else 9) + gen_fmt(rng, 1000 if q else 15000)
-            + gen_state(rng, 600 if q else 8000))
+            + gen_state(rng, 600 if q else 8000) + gen_json(rng, 60 if q else 600) + gen_long_srcloc(rng, 18 if q else 72))
     dobjs = D.gen(rng, 1500 if q else 20000, hoist)
     tm = orc.times([o['st']['ts'] for o in objs if o['mode'] == 0])
     for o in objs:
@@ -658,7 +733,7 @@ def run(tier):
         if o['mode'] != 3: allpairs += needed_pairs(o)
     for o in dobjs: allpairs += D.needed_pairs(o)
     orc.fields(allpairs)
-    gen_lines = [mk_line(o, orc) for o in objs] + [D.enc_case(o, orc) for o in dobjs]
+    gen_lines = [with_hoist(mk_line(o, orc), hoist) for o in objs] + [with_hoist(D.enc_case(o, orc), hoist) for o in dobjs]
     kinds = {}
     for o in objs: kinds[o['kind']] = kinds.get(o['kind'], 0) + 1
     kinds['dispatch'] = len(dobjs)
@@ -697,6 +772,7 @@ def run(tier):
         ck.violation('no-failing-input-found', '; '.join(broken))
     # what the code does on the inputs the property excludes (documented, not judged)
     excl = {}
+    zone = {'brace_literal_patterns': 0, 'source_locations_64k_and_more': 0}     # the zones of the two fixed findings
     nt = set()
     for c, i in zip(cases, il):
         d = decode(c)
@@ -705,6 +781,10 @@ def run(tier):
         if cl[0] == 'excluded':
             key = '%s -> %s' % (cl[1], 'format throws' if i.startswith('0 1') else 'constructor throws' if i.startswith('1') else 'a line is produced')
             excl[key] = excl.get(key, 0) + 1
+        elif cl[0] == 'ok' and classify(d['pattern'], strict=False)[0] != 'ok':
+            zone['brace_literal_patterns'] += 1
+        if cl[0] == 'ok' and len(prop_values(d)['source_location']) >= 65536:
+            zone['source_locations_64k_and_more'] += 1
         elif cl[0] == 'ok' and len(cl[1]) >= 2 and len(set(s for _, s in cl[1])) >= 2:
             nt.add(c)
         elif cl[0] == 'ok' and d['mode'] == 1 and b'\n' in d['st']['msg']:
@@ -734,12 +814,13 @@ def run(tier):
         if D.nontrivial(d, i):
             dcov['override_sink_before_plain_sink_both_written'] += 1; nt.add(c)
     return ck.finish(trusted=TRUSTED, samples=[c[:400] for c in (gen_lines[:2] + gen_lines[len(objs) - 1:len(objs)] + gen_lines[-1:])],
-                     rule='case = "pat <mode> ..." (0 create+format, 1 lines at the recording sink through the real backend, 2 vformat_to alone, 3 constructor state) or "patd <variant> sinks loggers statements" (lines handed to each of several sinks through the real backend), strings length-prefixed, oracle table appended; non-trivial = valid pattern with >= 2 attributes and >= 2 different specs, or a multi-line message through the backend, or (patd) a logger whose override-pattern sink precedes a plain sink and both were written; distinct by case text',
+                     rule='case = "pat [9 <pv_bits> <pv_esc>] <mode> ..." (model variant header; 0 create+format, 1 lines at the recording sink through the real backend, 2 vformat_to alone, 3 constructor state) or "patd <variant> sinks loggers statements" (lines handed to each of several sinks through the real backend), strings length-prefixed, oracle table appended; non-trivial = valid pattern with >= 2 attributes and >= 2 different specs, or a multi-line message through the backend, or (patd) a logger whose override-pattern sink precedes a plain sink and both were written; distinct by case text',
                      evaluations=len(cases), distinct_nontrivial=len(nt), traces=len(cases) - len(dis) - len(mon),
                      extra_cov={'disagreements': len(dis), 'monitor_failures': len(mon), 'corpus_cases': len(cp),
                                 'generated_by_kind': kinds, 'attributes_used_histogram': {str(k): v for k, v in sorted(nused.items())},
                                 'oracle_field_renderings': len(orc.f),
-                                'behaviour_on_excluded_inputs': excl, 'sink_dispatch': dcov})
+                                'behaviour_on_excluded_inputs': excl, 'valid_cases_in_the_zones_of_fixed_findings': zone,
+                                'model_variant': 'pv_bits=%d pv_esc=%d hoist=%d' % (var['bits'], var['esc'], hoist), 'sink_dispatch': dcov})
 
 
 def dispatch_phase(ck, tier, broken, n_quick=400, n_thorough=5000, skip_multiline_option_zone=True):
@@ -750,9 +831,12 @@ def dispatch_phase(ck, tier, broken, n_quick=400, n_thorough=5000, skip_multilin
     from props.c01 import srcfacts_values
     for o in ck.coq_obligations('Properties_C12d'):
         if not o['discharged']: broken.append('theorem %s: %s' % (o['name'], o['why']))
-    reinit = srcfacts_values().get('be_log_to_write_reinit_per_sink')
+    facts = srcfacts_values()
+    reinit = facts.get('be_log_to_write_reinit_per_sink')
     hoist = 0 if reinit == 'true' else 1
-    ck.tie.append({'T-src facts': {'be_log_to_write_reinit_per_sink': reinit}, 'model variant for the dispatch correspondence': 'hoist=%d' % hoist})
+    var = set_variant(facts)
+    ck.tie.append({'T-src facts': {'be_log_to_write_reinit_per_sink': reinit, 'mm_pos_bits': facts.get('mm_pos_bits'), 'pf_escapes_literal_braces': facts.get('pf_escapes_literal_braces')},
+                   'model variant for the dispatch correspondence': 'hoist=%d pv_bits=%d pv_esc=%d' % (hoist, var['bits'], var['esc'])})
     mexe, iexe = build(ck)
     if not mexe: return {'built': False}
     orc = Oracle(ck, iexe)
@@ -761,7 +845,7 @@ def dispatch_phase(ck, tier, broken, n_quick=400, n_thorough=5000, skip_multilin
     for o in dobjs: allpairs += D.needed_pairs(o)
     orc.fields(allpairs)
     cp = [with_hoist(c, hoist) for c in corpus() if c.startswith('patd ')]
-    cases = cp + [D.enc_case(o, orc) for o in dobjs]
+    cases = cp + [with_hoist(D.enc_case(o, orc), hoist) for o in dobjs]
     if skip_multiline_option_zone:
         # the open finding about the multi-line option of override options belongs to C12: those inputs are left to C12
         cases = [c for c in cases if D.decode(c) is None or not D.in_override_multiline_zone(D.decode(c))]
@@ -782,11 +866,29 @@ def dispatch_phase(ck, tier, broken, n_quick=400, n_thorough=5000, skip_multilin
     return {'dispatch_cases': len(cases), 'override_sink_before_plain_sink_both_written': nt, 'disagreements': len(dis), 'monitor_failures': len(mon), 'model_variant_hoist': hoist}
 
 
+# the model variant of the run (Format/PatModel.v, record pvar): set from the T-src facts by set_variant()
+VAR = {'bits': 16, 'esc': 0}
+
+
+def set_variant(facts):
+    """reads the model variant that stands for the checked tree from coq/gen/SrcFacts.v"""
+    try: bits = int(str(facts.get('mm_pos_bits', '16')).split('%')[0])
+    except ValueError: bits = 16
+    VAR['bits'] = bits if bits > 0 else 16
+    VAR['esc'] = 1 if facts.get('pf_escapes_literal_braces') == 'true' else 0
+    return dict(VAR)
+
+
 def with_hoist(case, hoist):
-    """a corpus patd line carries the model's variant flag as its first number: set it to the variant of this run"""
+    """a pat line gets the header "9 <pv_bits> <pv_esc>", a patd line carries hoist + 2 pv_esc + 4 pv_bits as its
+    first number (PatDispatch.patd_variant): set to the variant of this run"""
+    if case.startswith('pat '):
+        t = case.split(' ')
+        if len(t) > 1 and t[1] == '9': t = t[:1] + t[4:]
+        return ' '.join(['pat', '9', str(VAR['bits']), str(VAR['esc'])] + t[1:])
     if not case.startswith('patd '): return case
     t = case.split(' ', 2)
-    return '%s %d %s' % (t[0], hoist, t[2])
+    return '%s %d %s' % (t[0], hoist + 2 * VAR['esc'] + 4 * VAR['bits'], t[2])
 
 
 def shrink_case(ck, mexe, iexe, orc, case, mode):
@@ -794,7 +896,7 @@ def shrink_case(ck, mexe, iexe, orc, case, mode):
     if d is None or d['mode'] not in (0, 1): return case
 
     def fails(dd):
-        c = mk_line(dd, orc)
+        c = with_hoist(mk_line(dd, orc), 0)
         i = ck.run_impl(iexe, [c])[0]
         if mode == 'monitor': return monitor(c, i) is not None
         return norm_obs(c, norm_model(ck.run_model(mexe, [c])[0], i)) != norm_obs(c, i)
@@ -817,7 +919,7 @@ def shrink_case(ck, mexe, iexe, orc, case, mode):
             if len(v) >= 2:
                 nv = bytes(ddmin(list(v), lambda t: fails(with_(k, bytes(t))), max_tests=40))
                 d = with_(k, nv)
-        return mk_line(d, orc)
+        return with_hoist(mk_line(d, orc), 0)
     except Exception:
         return case
 
@@ -897,8 +999,8 @@ def make_corpus():
     big = b'a' * 65536
     findings = [
         '# the empty pattern is the documented no-formatting switch: format() returns ""', m0(b''), m1(1, 1, b'', b'a\nb'),
-        '# C12-brace-literal (open): literal braces are fmt syntax', m0(b'{{%(message)'), m0(b'{"level": "%(log_level)", "msg": "%(message)"}'),
-        '# C12-srcloc-64k (open): uint16_t positions in MacroMetadata (LOG_RUNTIME_METADATA with a 65538-byte file name: line_number comes out as "aaaa" instead of "5")',
+        '# C12-brace-literal (fixed): literal braces are literal text (the pinned code handed them to fmt as format syntax)', m0(b'{{%(message)'), m0(b'{"level": "%(log_level)", "msg": "%(message)"}'),
+        '# C12-srcloc-64k (fixed): the pinned code kept the positions in uint16_t (LOG_RUNTIME_METADATA with a 65538-byte file name: line_number came out as "aaaa" instead of "5")',
         m1(1, 0, b'%(line_number:.4)|%(message)', b'm', rt_file=b'd/' + big, rt_line=b'5'),
     ]
     d = os.path.join(VERIF, 'corpus', PID); os.makedirs(d, exist_ok=True)
